@@ -47,7 +47,10 @@ def check_1d(mname, flux, rname, n, L, x0, nlet, strength, res=None):
             r = [np.asarray(x, float).copy() for x in disc.rhs(f)]
         R[idx] = r
         ok[idx] = all(np.all(np.asarray(disc.pL[k]) > 0) and np.all(np.asarray(disc.pR[k]) > 0) for k in pos) and all(np.all(np.isfinite(x)) for x in r)
-        S[idx] = [float(np.nanmax(s)) for s in flux_scales(kind, model, disc)]
+        # scale of the flux terms from the face states and from the cell states (an alternating field reconstructs to face states that cancel to
+        # round-off: the rounding of the face states is relative to the cell values)
+        cells = type("P", (), {"pL": disc.pdata, "pR": disc.pdata})
+        S[idx] = [max(float(np.nanmax(s)), float(np.nanmax(c))) for s, c in zip(flux_scales(kind, model, disc), flux_scales(kind, model, cells))]
     out = []
     dx = L / n
     exact_mesh = float(dx).is_integer() and float(x0).is_integer()
@@ -94,7 +97,7 @@ def shard_1d(arg):
     ns = ns + ((7, 8, 13, 16, 33) if (tier == "thorough" or rname in ("extrapol1", "extrapol3", "muscl:vanleer", "muscl:superbee")) else ())
     for n in ns:
         nlet = {1: 5, 2: 5, 3: 5, 4: 4, 5: 3, 6: 2}.get(n, 3)
-        for L, x0 in ((float(n), 0.0), (1.0, -4.0)):
+        for L, x0 in ((float(n), 0.0), (1.0, -4.0)) + (((3e-6, 0.0), (4e3, 1e3)) if n in (3, 4, 7) else ()):      # also domains at unusual scales
             for s, w in check_1d(mname, flux, rname, n, L, x0, nlet, strength, res):
                 res.violation(s, w, {"kind": "1d", "model": mname, "flux": flux, "recon": rname, "n": n, "L": L, "x0": x0, "nlet": nlet, "strength": strength})
     res.sample({"model": mname, "flux": flux, "recon": rname, "n": 4, "data_letters": [0, 1, 1, 2], "shift": 1}, cap=1)
@@ -193,6 +196,8 @@ def check_solve_1d(iname, sysi, idx, res=None):
             dt0 = float(np.min(disc.calc_timestep(f, 0.3)))
             o = cls(mesh, disc).solve(f, 0.3, [0.4 * dt0], stop={"maxit": 2, "tottime": 1e30})
             o.extend(cls(mesh, disc).solve(f, 0.3, stop={"maxit": 2}))      # the snapshot run returns only the snapshot
+            if np.all(np.isfinite(np.asarray(disc.calc_timestep(f, 0.3), float))):      # not with Burgers cells at rest (infinite local step: the finding recorded under C03)
+                o.extend(cls(mesh, disc).solve(f, 0.3, stop={"maxit": 2}, directives={"dtlocal": True}))     # every cell advanced by its own step
             return o
     base = run(idx)
     site = "C14/solve1d/%s/%s" % (iname, mname)
